@@ -149,6 +149,7 @@ class Interp:
         self.opaque_call = opaque_call     # fn(interp, name, args, term) -> value or None (not handled)
         self.poll_hook = None              # fn(interp, pin, future_value) -> output value or None
         self.bv_arith = None               # fn(interp, op, a, b) -> value or None (arithmetic on bit vectors)
+        self.unknown_call = None           # fn(interp, name, args, term) -> value or None: last resort for calls without a model
         self.trace = []
 
     # ---- nondeterminism --------------------------------------------------------------------------------------------
@@ -697,6 +698,10 @@ class Interp:
         r = self.model_seq(name, seg, A, depth)
         if r is not NotImplemented:
             return r
+        if self.unknown_call is not None:
+            r = self.unknown_call(self, name, A, t)
+            if r is not None:
+                return r
         raise Unmodelled('call to %s is not modelled' % name)
 
     def compare_values(self, seg, a, b):
